@@ -504,6 +504,18 @@ class Router:
         self.ep.settle()
         return ok
 
+    def send_burst(self, *msgs):
+        """the octets of the messages arrive in three reads (cut inside the first frame and inside
+        the rest) that are all handed to the endpoint before its event loop runs again"""
+        data = b"".join(self.frames(msgs))
+        cuts = sorted({max(1, len(data) // 3), max(1, (2 * len(data)) // 3)})
+        parts = [data[i:j] for i, j in zip([0] + cuts, cuts + [len(data)]) if data[i:j]]
+        ok = True
+        for part in parts:
+            ok = self.ep.feed(part, settle=False) and ok
+        self.ep.settle()
+        return ok
+
     def read(self):
         """decode what the endpoint wrote since the last call -> list of new marshalled messages"""
         self._buf += self.ep.take()
